@@ -269,7 +269,18 @@ def generate(seed, tier):
         case['deliveries'] = dels
         return case
     # clean text: all forms
+    if r.random() < 0.003:
+        # one token of more than a MiB (an embedded blob): limits and counters that exist on one delivery path only
+        n = r.choice([1100000, 1300000])
+        text = r.choice(['"%s"\n', "'%s'\n", 'blob: %s\n', '- |\n  %s\n']) % ('QUJD' * (n // 4))
+        case.update(api='scan' if backend == 'py' else case['api'], text=text, label='megatoken',
+                    deliveries=[{'form': 'text', 'via': 'memory'}, {'form': 'utf8', 'via': 'memory'}, {'form': 'text', 'via': 'io'},
+                                {'form': 'utf8', 'via': 'sim', 'sizes': [], 'then': None, 'block': None, 'kind': 'full'},
+                                {'form': 'text', 'via': 'sim', 'sizes': [], 'then': 65536, 'block': None, 'kind': 'full'}])
+        return case
     dels = [{'form': 'text', 'via': 'memory'}]
+    if r.random() < 0.35:
+        dels.append({'form': 'text', 'via': 'wrapper'})       # a real io.TextIOWrapper over an encoded file
     for fam in FAMILIES:
         if fam != 'text' and r.random() < 0.6:
             dels.append({'form': fam, 'via': 'memory'})
@@ -331,6 +342,7 @@ def canon_item(api, it, shift):
 # str() of the error of the last delivery: the message a user sees.  It legitimately differs between in-memory input
 # (source name, snippet) and streams, but not between two chunkings of the same stream.
 LAST_ERROR_TEXT = [None]
+LAST_ERROR_SNIPPET = [None]
 
 
 def deliver(yaml, data, d, api, backend, shift):
@@ -342,11 +354,23 @@ def deliver(yaml, data, d, api, backend, shift):
         src = data
     elif d['via'] == 'io':
         src = io.StringIO(data) if isinstance(data, str) else io.BytesIO(data)
+    elif d['via'] == 'wrapper':
+        # what open(path, encoding=codec, newline='') gives: the codec is whatever can represent the text
+        codec = 'utf-8'
+        for c in ('latin-1', 'cp1251', 'koi8-r', 'cp1252', 'utf-16'):
+            try:
+                data.encode(c)
+                codec = c
+                break
+            except UnicodeEncodeError:
+                continue
+        src = io.TextIOWrapper(io.BytesIO(data.encode(codec)), encoding=codec, newline='')
     else:
         stream = SimReader(data, d.get('sizes') or (), d.get('then'), log=log)
         src = stream
     items, err = [], None
     LAST_ERROR_TEXT[0] = None
+    LAST_ERROR_SNIPPET[0] = None
     try:
         for it in getattr(yaml, api)(src, Loader=L):
             items.append(canon_item(api, it, shift))
@@ -356,6 +380,11 @@ def deliver(yaml, data, d, api, backend, shift):
             LAST_ERROR_TEXT[0] = str(exc)
         except Exception as exc2:
             LAST_ERROR_TEXT[0] = 'str() failed: %r' % (exc2,)
+        pm = getattr(exc, 'problem_mark', None)
+        try:
+            LAST_ERROR_SNIPPET[0] = pm.get_snippet() if pm is not None else None
+        except Exception as exc2:
+            LAST_ERROR_SNIPPET[0] = 'get_snippet() failed: %r' % (exc2,)
     except ReadBudgetExceeded as exc:
         err = {'class': 'ReadBudgetExceeded', 'args': [str(exc)]}
     except RecursionError:
@@ -544,12 +573,20 @@ def execute(case):
         ref = None
         fam_ref = {}
         msg_ref = {}
+        snip_ref = {}
         for i, d in enumerate(case['deliveries']):
             family = d['form']
             data = encode(text, family)
             shift = 1 if (backend == 'py' and family in ('utf8bom', 'utf16le', 'utf16be')) else 0
             items, err, readlog, _ = deliver(yaml, data, d, api, backend, shift)
             out['evals'] += 1
+            if err is not None and d['via'] == 'memory' and family in ('text', 'utf8') and isinstance(err.get('problem_mark'), list):
+                # the quoted source line of an in-memory document: the same for the str and for its UTF-8 bytes
+                snip_ref[family] = (LAST_ERROR_SNIPPET[0], err)
+                if len(snip_ref) == 2 and snip_ref['text'][1] == snip_ref['utf8'][1] and snip_ref['text'][0] != snip_ref['utf8'][0]:
+                    out['violations'].append({'class': 'error-snippet-depends-on-delivery-form', 'detail': {
+                        'str': snip_ref['text'][0], 'utf8_bytes': snip_ref['utf8'][0], 'error': err}})
+                    break
             if err is not None and d['via'] in ('sim', 'io') and LAST_ERROR_TEXT[0] is not None:
                 key = family
                 if key in msg_ref and msg_ref[key][0] != LAST_ERROR_TEXT[0] and msg_ref[key][1] == err:
